@@ -77,7 +77,7 @@ pub struct Req {
     pub mask: u64,
     pub tcp: bool,
     pub opcode: u8,
-    /// 0 IPv4, 1 IPv6, 2 IPv4-mapped IPv6
+    /// 0 IPv4, 1 IPv6, 2 IPv4-mapped IPv6, 3 IPv6 in ::/96 that is not IPv4-mapped
     pub family: u8,
     pub addr: u128,
 }
@@ -141,8 +141,10 @@ pub fn render_req(r: &Req, id: u16) -> Vec<u8> {
 }
 
 pub fn addr_of(r: &Req) -> IpAddr {
-    match r.family % 3 {
+    match r.family % 4 {
         0 => IpAddr::V4(std::net::Ipv4Addr::from(r.addr as u32)),
+        // an IPv6 address in ::/96 that is NOT IPv4-mapped (::a.b.c.d, ::1): plain IPv6 for the limiter
+        3 => IpAddr::V6(std::net::Ipv6Addr::from((r.addr as u32) as u128)),
         1 => {
             // avoid accidentally producing an IPv4-mapped address
             let mut a = r.addr;
@@ -459,7 +461,7 @@ fn req_strategy() -> impl Strategy<Value = Req> {
         prop_oneof![2 => Just(0u64), 1 => any::<u64>()],
         prop::bool::weighted(0.1),
         prop_oneof![9 => Just(0u8), 1 => 1u8..16],
-        0u8..3,
+        0u8..4,
         prop_oneof![
             // addresses that differ in single bits around common prefix boundaries
             4 => (0u32..4, 0u32..4).prop_map(|(a, b)| (0x0a00_0000u128 | ((a as u128) << 8) | b as u128) | (0x2001_0db8u128 << 96) | ((a as u128) << 72) | ((b as u128) << 64)),
@@ -527,7 +529,7 @@ pub fn run(ctx: &Ctx, report: &mut Report) {
             masked prefix, category, effective name). Non-trivial = pair whose keys agree in all components but at most one."
             .into();
         report.assumptions.push("32-bit name-hash collisions (probability 2^-32) are ignored; pairs taking > 0.5 s of wall time are retried".into());
-        run_prop(ctx, report, PropSpec { name: "stream-pairs", cases: ctx.tier.pick(40_000, 1_000_000), max_shrink_iters: 2000 }, pair_case, oracle_pair);
+        run_prop(ctx, report, PropSpec { name: "stream-pairs", cases: ctx.tier.pick(300_000, 3_000_000), max_shrink_iters: 2000 }, pair_case, oracle_pair);
     } else {
         report.rule = "one server and one response stream per history; RRL parameters (rates 1-10^6, window 1-3600, slip 0/1/2/5, table size \
             1/7/65537); histories of up to 200 steps (advance g seconds with the time-shift hook, then one request) with g from {0, 1, 2, \
